@@ -9,8 +9,11 @@
       dl  the order in which the delete loop visits toDelete (a permutation of [todel_after b ro rf]);
       rf/df/tf  which renames / removals / steps of SetTombstone fail.
     A crash (kill -9) after k operations leaves  apply_ops (firstn k run) (fs0 b);  [visible] is what a searcher
-    loading the directory sees.  [ff_run] = fault-free run whose phase W produced every temp file completely. *)
-From ZV Require Import Lib.Base Model.FsOps Model.FinishOps Proofs.FinishOps Generated.FinishSites.
+    loading the directory sees.  [ff_run] = fault-free run whose phase W produced every temp file completely;
+    [f_run] = the same with failing renames [rf] (the delete loop then visits what is left in toDelete).
+    [finish_ops] = the current code: when a rename failed the toDelete loop is skipped (repair of this round);
+    [finish_ops_before_fix] = without that skip. *)
+From ZV Require Import Lib.Base Model.FsOps Model.FinishOps Proofs.FinishOps Proofs.FinishFaults Proofs.FinishOrphan Generated.FinishSites.
 From Coq Require Import Permutation.
 
 (** (1) Everything written before the rename loop is invisible: whatever phase W does (including partial writes and
@@ -42,6 +45,59 @@ Theorem C12_repo_never_missing : forall b w ro dl k,
   build_wf b -> ff_run b w ro dl -> (0 < b_nold b \/ b_comp b = true) -> served (state_at b w ro dl k).
 Proof. exact never_missing_any. Qed.
 Print Assumptions C12_repo_never_missing.
+
+(** (3') The same two facts for prefixes of runs WITH failing operations: every build, every order, EVERY combination of
+    failing renames / removals / SetTombstone steps (not just a single fault), every crash prefix [k] of the faulty run.
+    No partially written file is visible (with or without the skip of the delete loop) ... *)
+Theorem C12_no_truncated_visible_under_faults : forall skip b w ro dl rf df tf k x,
+  f_run b w ro dl rf -> is_tmp x = false -> fstate_at skip b w ro dl rf df tf k x <> Some Partial.
+Proof. exact no_partial_faults. Qed.
+Print Assumptions C12_no_truncated_visible_under_faults.
+
+(** ... and (current code: a failed rename makes Finish return before the toDelete loop) the repository is never missing. *)
+Theorem C12_repo_never_missing_under_faults : forall b w ro dl rf df tf k,
+  build_wf b -> f_run b w ro dl rf -> (0 < b_nold b \/ b_comp b = true) ->
+  served (fstate_at true b w ro dl rf df tf k).
+Proof. exact never_missing_faults. Qed.
+Print Assumptions C12_repo_never_missing_under_faults.
+
+(** Before the repair (no skip) this was FALSE: one old shard, rebuilt as one shard, the rename of the new shard fails;
+    `continue` leaves the old shard's name in toDelete, the delete loop removes it: the repository is gone (Finish
+    reports the error, but nothing serves the repository until the next successful run). *)
+Theorem C12_repo_never_missing_under_faults_before_fix_refuted : exists b w ro dl rf df tf k,
+  build_wf b /\ f_run b w ro dl rf /\ (0 < b_nold b \/ b_comp b = true) /\
+  ~ served (fstate_at false b w ro dl rf df tf k).
+Proof.
+  exists (mkBuild false 1 [] 1 false false false), (write_phase (mkBuild false 1 [] 1 false false false)),
+         [Shard (SReg 0)], [Shard (SReg 0)], (fun x => name_eqb x (Shard (SReg 0))), nofault, TNone, 6.
+  split; [split; intro; cbn; (lia || discriminate)|]. split; [|split; [left; cbn; lia|]].
+  - constructor; [reflexivity | | apply Permutation_refl | apply Permutation_refl].
+    intros a [<-|[]]. reflexivity.
+  - intros [Hs|[Hs _]]; apply Hs; vm_compute; reflexivity.
+Qed.
+Print Assumptions C12_repo_never_missing_under_faults_before_fix_refuted.
+
+(** the same with the repository in a compound shard (ShardMerging): rename fails, SetTombstone succeeds *)
+Theorem C12_repo_never_missing_under_faults_before_fix_refuted_compound : exists b w ro dl rf df tf k,
+  build_wf b /\ f_run b w ro dl rf /\ b_comp b = true /\
+  ~ served (fstate_at false b w ro dl rf df tf k).
+Proof.
+  exists (mkBuild false 0 [] 1 true false true), (write_phase (mkBuild false 0 [] 1 true false true)),
+         [Shard (SReg 0)], [Shard SComp], (fun x => name_eqb x (Shard (SReg 0))), nofault, TNone, 8.
+  split; [split; intro; cbn; (lia || discriminate)|]. split; [|split; [reflexivity|]].
+  - constructor; [reflexivity | | apply Permutation_refl | apply Permutation_refl].
+    intros a [<-|[]]. reflexivity.
+  - intros [Hs|[_ Hs]]; apply Hs; vm_compute; reflexivity.
+Qed.
+Print Assumptions C12_repo_never_missing_under_faults_before_fix_refuted_compound.
+
+(** the fault-free theorems (3) are the instance rf = df = nofault, tf = TNone *)
+Lemma C12_fault_free_is_an_instance : forall skip b w ro dl k,
+  ff_run b w ro dl -> f_run b w ro dl nofault /\ fstate_at skip b w ro dl nofault nofault TNone k = state_at b w ro dl k.
+Proof.
+  intros skip b w ro dl k H. split; [apply ff_run_f_run; exact H|].
+  unfold fstate_at, state_at. rewrite frun_ops_ff. reflexivity.
+Qed.
 
 (** (4) Deletions come after renames: in every run (any faults) each removal / tombstoning of an old file happens
     after every install rename. *)
@@ -83,7 +139,7 @@ Theorem C12_success_complete_before_fix_refuted : exists b w ro dl rf df tf,
   build_wf b /\ forallb tmp_only w = true /\ tmps_ready b (apply_ops w (fs0 b)) /\
   Permutation ro (artifacts b) /\ Permutation dl (todel_after b ro rf) /\
   finish_err_before_fix b ro dl rf df tf = false /\
-  ~ view_eq (visible (apply_ops (w ++ finish_ops b ro dl rf df tf) (fs0 b))) (view_new b).
+  ~ view_eq (visible (apply_ops (w ++ finish_ops_before_fix b ro dl rf df tf) (fs0 b))) (view_new b).
 Proof.
   exists (mkBuild false 0 [] 1 true false true), (write_phase (mkBuild false 0 [] 1 true false true)),
          [Shard (SReg 0)], [Shard SComp], (fun x => name_eqb x (Shard (SReg 0))), nofault, TNone.
@@ -96,6 +152,61 @@ Proof.
   - intro H. specialize (H (SReg 0)). vm_compute in H. discriminate.
 Qed.
 Print Assumptions C12_success_complete_before_fix_refuted.
+
+(** (6') Orphan sidecars.  A run killed between removing a shard and removing its ".meta" (the toDelete loop visits a map;
+    zoekt-merge-index and the indexserver's cleanup remove shard and sidecar one after the other too) leaves a sidecar
+    WITHOUT shard.  Nothing reads it — but a later build that writes a shard under that name had it adopted for good: the
+    run reported success and its new shard was served through the stale sidecar (file tombstones hiding new documents,
+    old branch versions).  [fs0o b orph] = the directory with such sidecars at the slots [orph].  Before the repair
+    (`fix: Builder.Finish removes a left-over .meta ...`): *)
+Theorem C12_orphan_sidecar_adopted_before_fix_refuted : exists b orph w ro dl,
+  build_wf b /\ forallb tmp_only w = true /\ tmps_ready b (apply_ops w (fs0 b)) /\
+  Permutation ro (artifacts b) /\ Permutation dl (todel_after b ro nofault) /\
+  finish_err b ro dl nofault nofault TNone = false /\
+  view_eq (visible (fs0o b orph)) (view_old b) /\
+  ~ view_eq (visible (apply_ops (w ++ finish_ops_o_before_fix b ro dl nofault nofault TNone) (fs0o b orph))) (view_new b).
+Proof.
+  exists (mkBuild false 1 [] 2 false false false), [1], (write_phase (mkBuild false 1 [] 2 false false false)),
+         [Shard (SReg 0); Shard (SReg 1)], [].
+  repeat split.
+  - intro. cbn. lia.
+  - intro H. discriminate.
+  - intros a Ha. cbn in Ha. repeat (destruct Ha as [<-|Ha]; [reflexivity|]). contradiction.
+  - apply Permutation_refl.
+  - apply Permutation_refl.
+  - apply visible_fs0o.
+  - intro H. specialize (H (SReg 1)). vm_compute in H. discriminate.
+Qed.
+Print Assumptions C12_orphan_sidecar_adopted_before_fix_refuted.
+
+(** Current code: before the rename loop Finish removes the sidecar at every new shard's name where no shard exists
+    ([orphan_ops po pf]: in any order [po], removals may fail [pf]).  A kill anywhere up to the end of that phase (any
+    failures) still shows the old index ... *)
+Theorem C12_orphan_removal_invisible : forall b orph w po pf rest k,
+  forallb tmp_only w = true -> (forall n, In n po -> b_nold b <= n) -> k <= length w + length po ->
+  view_eq (visible (apply_ops (firstn k (w ++ orphan_ops po pf ++ rest)) (fs0o b orph))) (view_old b).
+Proof. exact orphan_prefix_old. Qed.
+Print Assumptions C12_orphan_removal_invisible.
+
+(** ... and from the end of that phase on, every crash state of the run is pointwise the crash state of the same run
+    started in the directory WITHOUT orphans — so (3)-(7), stated for [fs0 b], hold for directories with orphan sidecars
+    at new shards' names (orphans elsewhere are never read and never touched) ... *)
+Theorem C12_orphan_run_transfer : forall b orph w po rest k,
+  forallb tmp_only w = true -> (forall n, In n po -> b_nold b <= n) -> (forall n, In n orph -> b_nold b <= n -> In n po) ->
+  length w + length po <= k ->
+  forall x, apply_ops (firstn k (w ++ orphan_ops po nofaultn ++ rest)) (fs0o b orph) x =
+            apply_ops (firstn (k - length po) (w ++ rest)) (fs0 b) x.
+Proof. exact orphan_transfer. Qed.
+Print Assumptions C12_orphan_run_transfer.
+
+(** ... in particular: success reported => the complete new index, under every fault combination, with orphans *)
+Theorem C12_success_complete_with_orphans : forall b orph w po pf ro dl rf df tf,
+  build_wf b -> forallb tmp_only w = true -> tmps_ready b (apply_ops w (fs0 b)) -> po_ok b orph po ->
+  Permutation ro (artifacts b) -> Permutation dl (todel_after b ro rf) ->
+  finish_err_o b po pf ro dl rf df tf = false ->
+  view_eq (visible (apply_ops (w ++ finish_ops_o b po pf ro dl rf df tf) (fs0o b orph))) (view_new b).
+Proof. exact success_complete_orphans. Qed.
+Print Assumptions C12_success_complete_with_orphans.
 
 (** (7) The full statement "at every crash point old or new" is FALSE as soon as a build installs more than one
     artifact — inherent in renaming N files one by one (known finding, keyed by the rename-loop window). *)
@@ -148,6 +259,47 @@ Proof.
   - specialize (Hv (SReg 0)). vm_compute in Hv. discriminate.
 Qed.
 Print Assumptions C12_atomic_stale_sidecar_refuted.
+
+(** (7') Would a different treatment of the stale sidecar shrink that window?  NO.  Variant A removes the stale sidecar
+    of every name about to be overwritten BEFORE the rename loop: killed between that removal and the rename, the OLD
+    shard is served WITHOUT its sidecar (file tombstones / branch versions of later delta builds and metadata updates
+    are lost: superseded documents reappear) — one mixed crash point instead of one mixed crash point.  Variant B
+    installs a fresh sidecar with every new shard: two renames per shard, i.e. the rename-loop window of (7) in either
+    order.  (Variants are defined in Proofs/FinishFaults.v; neither is what /repo does.) *)
+Theorem C12_variant_sidecars_first_refuted :
+  let b := mkBuild false 1 [0] 1 false false false in
+  exists k, let f := apply_ops (firstn k (variant_a_ops b (write_phase b) [Shard (SReg 0)] [Meta (SReg 0)])) (fs0 b) in
+    ~ view_eq (visible f) (view_old b) /\ ~ view_eq (visible f) (view_new b).
+Proof.
+  cbv zeta. exists 5. split; intro Hv; specialize (Hv (SReg 0)); vm_compute in Hv; discriminate.
+Qed.
+Print Assumptions C12_variant_sidecars_first_refuted.
+
+Theorem C12_variant_fresh_sidecars_refuted :
+  let b := mkBuild false 1 [0] 1 false false false in
+  exists k, let f := apply_ops (firstn k (variant_b_ops b (write_phase b) [Shard (SReg 0)] [Meta (SReg 0)])) (fs0 b) in
+    ~ view_eq (visible f) (view_old b) /\ ~ view_eq (visible f) (view_new b).
+Proof.
+  cbv zeta. exists 8. split; intro Hv; specialize (Hv (SReg 0)); vm_compute in Hv; discriminate.
+Qed.
+Print Assumptions C12_variant_fresh_sidecars_refuted.
+
+(** and in each variant the number of crash points whose view is neither the old index nor the program's own final
+    state is not smaller than in the current program (single shard with a stale sidecar: exactly one in all three) *)
+Definition mixedb (b : build) (ops : list xop) (f : fs) : bool :=
+  negb (rows_eqb (view_codes (view_bound b) f) (view_codes (view_bound b) (fs0 b))) &&
+  negb (rows_eqb (view_codes (view_bound b) f) (view_codes (view_bound b) (apply_ops ops (fs0 b)))).
+Definition mixed_points (b : build) (ops : list xop) : nat :=
+  length (filter (fun k => mixedb b ops (apply_ops (firstn k ops) (fs0 b))) (seq 0 (S (length ops)))).
+Example C12_variants_do_not_shrink_the_window :
+  let b1 := mkBuild false 1 [0] 1 false false false in      (* 1 shard with stale sidecar -> 1 shard *)
+  let b2 := mkBuild false 2 [0; 1] 2 false false false in   (* 2 shards with stale sidecars -> 2 shards *)
+  let cur b := run_ops b (write_phase b) (artifacts b) (todel_after b (artifacts b) nofault) in
+  let va b := variant_a_ops b (write_phase b) (artifacts b) (todel_after b (artifacts b) nofault) in
+  let vb b := variant_b_ops b (write_phase b) (artifacts b) (todel_after b (artifacts b) nofault) in
+  (mixed_points b1 (cur b1), mixed_points b1 (va b1), mixed_points b1 (vb b1)) = (1, 1, 1) /\
+  (mixed_points b2 (cur b2), mixed_points b2 (va b2), mixed_points b2 (vb b2)) = (3, 3, 3).
+Proof. cbv zeta. split; vm_compute; reflexivity. Qed.
 
 (** (8) Tie to the source: the order of the file-system call sites (and of the guarded assignments to b.buildError) that
     translator/finishops extracts from index/builder.go and index/tombstones.go is the one the model encodes.
@@ -206,4 +358,37 @@ Example C12_nonvacuous_compound_with_faults :   (* success_complete's hypotheses
 Proof.
   cbv zeta. split; [split; intro; cbn; (lia || discriminate)|]. split; [|repeat split; vm_compute; reflexivity].
   constructor; [reflexivity | ready_conc | perm_conc | perm_conc].
+Qed.
+
+Example C12_nonvacuous_faulty_run :   (* 2 old shards (one with sidecar) rebuilt as 2 shards; the rename of shard 1 fails *)
+  let b := mkBuild false 2 [1] 2 false false false in
+  let rf := fun x => name_eqb x (Shard (SReg 1)) in
+  build_wf b /\ f_run b (write_phase b) [Shard (SReg 1); Shard (SReg 0)] [Meta (SReg 1); Shard (SReg 1)] rf /\
+  (* current code: the delete loop is skipped, old shard 1 (with its sidecar) stays next to new shard 0; error reported *)
+  view_codes 4 (fstate_at true b (write_phase b) [Shard (SReg 1); Shard (SReg 0)] [Meta (SReg 1); Shard (SReg 1)] rf nofault TNone 100)
+    = [(1, 2, 0); (2, 1, 1)]%N /\
+  finish_err b [Shard (SReg 1); Shard (SReg 0)] [Meta (SReg 1); Shard (SReg 1)] rf nofault TNone = true /\
+  (* before the repair: old shard 1 was removed although its replacement was never installed *)
+  view_codes 4 (fstate_at false b (write_phase b) [Shard (SReg 1); Shard (SReg 0)] [Meta (SReg 1); Shard (SReg 1)] rf nofault TNone 100)
+    = [(1, 2, 0)]%N.
+Proof.
+  cbv zeta. split; [split; intro; cbn; (lia || discriminate)|]. split; [|repeat split; vm_compute; reflexivity].
+  constructor; [reflexivity | ready_conc | perm_conc | perm_conc].
+Qed.
+
+Example C12_nonvacuous_orphans :   (* one old shard rebuilt as three; orphan sidecars wait at slots 1 and 2 *)
+  let b := mkBuild false 1 [] 3 false false false in
+  let ro := [Shard (SReg 2); Shard (SReg 0); Shard (SReg 1)] in
+  build_wf b /\ po_ok b [1; 2] [2; 1] /\ Permutation ro (artifacts b) /\
+  finish_err_o b [2; 1] nofaultn ro [] nofault nofault TNone = false /\
+  view_codes 5 (fs0o b [1; 2]) = [(1, 1, 0)]%N /\
+  view_codes 5 (apply_ops (write_phase b ++ finish_ops_o b [2; 1] nofaultn ro [] nofault nofault TNone) (fs0o b [1; 2]))
+    = [(1, 2, 0); (2, 2, 0); (3, 2, 0)]%N /\
+  (* without the removal phase shards 1 and 2 come up under the stale sidecars *)
+  view_codes 5 (apply_ops (write_phase b ++ finish_ops_o_before_fix b ro [] nofault nofault TNone) (fs0o b [1; 2]))
+    = [(1, 2, 0); (2, 2, 1); (3, 2, 1)]%N.
+Proof.
+  cbv zeta. split; [split; intro; cbn; (lia || discriminate)|].
+  split; [split; intros n Hn; cbn in *; intuition lia|].
+  split; [perm_conc|]. repeat split; vm_compute; reflexivity.
 Qed.
